@@ -17,6 +17,7 @@ import (
 	"verif/simrt"
 )
 
+//go:norace
 func atoi(s string) int {
 	n, err := strconv.Atoi(s)
 	if err != nil {
@@ -47,6 +48,8 @@ const (
 )
 
 // NewOpts wires a session the way the repository's tests and examples do.
+//
+//go:norace
 func NewOpts() *session.Opts {
 	return &session.Opts{
 		MessageBuilders: session.MessageBuilders{
@@ -106,10 +109,12 @@ type Store struct {
 
 var errInjectedSave = errors.New("injected: message store is unavailable")
 
+//go:norace
 func NewStore(w *World) *Store {
 	return &Store{w: w, Real: memory.NewStorage(), FailSave: map[int]bool{}}
 }
 
+//go:norace
 func (s *Store) delay(op string) {
 	simrt.Yield("store." + op)
 	if s.Delay != nil {
@@ -117,6 +122,7 @@ func (s *Store) delay(op string) {
 	}
 }
 
+//go:norace
 func (s *Store) log(op string, n int, err error, typ string) {
 	if s.Quiet {
 		return
@@ -126,6 +132,7 @@ func (s *Store) log(op string, n int, err error, typ string) {
 	simrt.RaceEnable()
 }
 
+//go:norace
 func (s *Store) GetNextSeqNum(id fix.StorageID) (int, error) {
 	s.delay("GetNextSeqNum")
 	n, err := s.Real.GetNextSeqNum(id)
@@ -134,21 +141,25 @@ func (s *Store) GetNextSeqNum(id fix.StorageID) (int, error) {
 	return n, err
 }
 
+//go:norace
 func (s *Store) GetCurrSeqNum(id fix.StorageID) (int, error) {
 	s.delay("GetCurrSeqNum")
 	return s.Real.GetCurrSeqNum(id)
 }
 
+//go:norace
 func (s *Store) ResetSeqNum(id fix.StorageID) error {
 	s.delay("ResetSeqNum")
 	return s.Real.ResetSeqNum(id)
 }
 
+//go:norace
 func (s *Store) SetSeqNum(id fix.StorageID, n int) error {
 	s.delay("SetSeqNum")
 	return s.Real.SetSeqNum(id, n)
 }
 
+//go:norace
 func (s *Store) Save(id fix.StorageID, msg simplefixgo.SendingMessage, n int) error {
 	s.delay("Save")
 	simrt.RaceDisable()
@@ -166,6 +177,7 @@ func (s *Store) Save(id fix.StorageID, msg simplefixgo.SendingMessage, n int) er
 	return err
 }
 
+//go:norace
 func (s *Store) Messages(id fix.StorageID, from, to int) ([]simplefixgo.SendingMessage, error) {
 	s.delay("Messages")
 	return s.Real.Messages(id, from, to)
@@ -181,6 +193,7 @@ type AccCfg struct {
 	CloseTimeout time.Duration
 	Approve      func(*session.LogonSettings) error
 	Store        *Store // shared by every session, as in the repository's tests
+	RawStore     *memory.Storage // if set: the bundled store itself, without the harness wrapper
 	OnSession    func(as *AccSession)
 	Opts         func() *session.Opts
 }
@@ -206,6 +219,7 @@ type AccSide struct {
 	Served   bool
 }
 
+//go:norace
 func (w *World) StartAcceptor(cfg AccCfg) *AccSide {
 	as := &AccSide{w: w, L: w.Net.Listen(), Store: cfg.Store}
 	if as.Store == nil {
@@ -224,12 +238,17 @@ func (w *World) StartAcceptor(cfg AccCfg) *AccSide {
 		cfg.Opts = NewOpts
 	}
 	factory := simplefixgo.NewAcceptorHandlerFactory(fixgen.FieldMsgType, cfg.HandlerBuf)
+	var cs session.CounterStorage = as.Store
+	var ms session.MessageStorage = as.Store
+	if cfg.RawStore != nil {
+		cs, ms = cfg.RawStore, cfg.RawStore
+	}
 	as.A = simplefixgo.NewAcceptor(as.L, factory, cfg.WriteTimeout, func(h simplefixgo.AcceptorHandler) {
 		s, err := session.NewAcceptorSession(cfg.Opts(), h, &session.LogonSettings{
 			LogonTimeout:  cfg.LogonTimeout,
 			CloseTimeout:  cfg.CloseTimeout,
 			HeartBtLimits: &session.IntLimits{Min: cfg.HBMin, Max: cfg.HBMax},
-		}, cfg.Approve, as.Store, as.Store)
+		}, cfg.Approve, cs, ms)
 		if err != nil {
 			panic("harness: NewAcceptorSession: " + err.Error())
 		}
@@ -269,6 +288,7 @@ type InitCfg struct {
 	Password      string
 	CloseTimeout  time.Duration
 	Store         *Store
+	RawStore      *memory.Storage
 	Opts          func() *session.Opts
 	BeforeRun     func(is *InitSide)
 }
@@ -289,6 +309,7 @@ type InitSide struct {
 	HDisc      int
 }
 
+//go:norace
 func (w *World) StartInitiator(cfg InitCfg, libEnd *Conn) *InitSide {
 	is := &InitSide{w: w, C: libEnd, Store: cfg.Store}
 	if is.Store == nil {
@@ -302,6 +323,11 @@ func (w *World) StartInitiator(cfg InitCfg, libEnd *Conn) *InitSide {
 	}
 	is.H = simplefixgo.NewInitiatorHandler(context.Background(), fixgen.FieldMsgType, cfg.HandlerBuf)
 	is.I = simplefixgo.NewInitiator(libEnd, is.H, cfg.ConnBuf, cfg.WriteDeadline)
+	var cs session.CounterStorage = is.Store
+	var ms session.MessageStorage = is.Store
+	if cfg.RawStore != nil {
+		cs, ms = cfg.RawStore, cfg.RawStore
+	}
 	s, err := session.NewInitiatorSession(is.H, cfg.Opts(), &session.LogonSettings{
 		TargetCompID:  cfg.Target,
 		SenderCompID:  cfg.Sender,
@@ -310,7 +336,7 @@ func (w *World) StartInitiator(cfg InitCfg, libEnd *Conn) *InitSide {
 		Username:      cfg.Username,
 		Password:      cfg.Password,
 		CloseTimeout:  cfg.CloseTimeout,
-	}, is.Store, is.Store)
+	}, cs, ms)
 	if err != nil {
 		panic("harness: NewInitiatorSession: " + err.Error())
 	}
@@ -348,10 +374,14 @@ func (w *World) StartInitiator(cfg InitCfg, libEnd *Conn) *InitSide {
 // ---- helpers for scripted peers ----
 
 // PeerClock formats the simulated time as a FIX timestamp.
+//
+//go:norace
 func PeerClock() string { return time.Now().UTC().Format("20060102-15:04:05.000") }
 
 // AdminMsg builds a message from a scripted peer: standard header then extra fields.
+//
+//go:norace
 func AdminMsg(typ string, seq int, sender, target string, extra ...Field) []Field {
-	fs := []Field{{"35", typ}, F(TagSenderCompID, sender), F(TagTargetCompID, target), FI(TagMsgSeqNum, seq), F(TagSendingTime, PeerClock())}
+	fs := []Field{{Tag: "35", Val: typ}, F(TagSenderCompID, sender), F(TagTargetCompID, target), FI(TagMsgSeqNum, seq), F(TagSendingTime, PeerClock())}
 	return append(fs, extra...)
 }
